@@ -34,6 +34,19 @@ def xk(kind, testnet, bip, pub=False):
     return hd.xpub(n, v) if pub else hd.xprv(n, v)
 
 
+_PURP = {}
+
+
+def _acct_text_feats(a):
+    """reference only: the three account extended private keys (mainnet) of account a below ROOT, as text"""
+    out = {}
+    for p in (44, 49, 84):
+        if p not in _PURP:
+            _PURP[p] = hd.derive(hdscen.ref_root(dict(ROOT)), [H + p, H])
+        out["x%d" % p] = hd.xprv(hd.ckd_priv(_PURP[p], H + a), hd.version_for("prv", False, p)).encode()
+    return out
+
+
 def bad_checksum(s):
     c = "2" if s[-1] != "2" else "3"
     return s[:-1] + c
@@ -144,6 +157,36 @@ def expected_data(cmd, vec, observed):
     return attempt(go)
 
 
+def _strings(x):
+    if isinstance(x, dict):
+        for v in x.values():
+            yield from _strings(v)
+    elif isinstance(x, (list, tuple)):
+        for v in x:
+            yield from _strings(v)
+    elif isinstance(x, str):
+        yield x
+
+
+def _missing(a, b, pre=""):
+    """paths at which the expected value b is absent from / different in the observed value a (extra keys of a are free)"""
+    if isinstance(b, dict):
+        if not isinstance(a, dict):
+            return [pre or "/"]
+        out = []
+        for k in b:
+            out += _missing(a[k], b[k], "%s/%s" % (pre, k)) if k in a else ["%s/%s" % (pre, k)]
+        return out
+    if isinstance(b, list):
+        if not isinstance(a, list) or len(a) != len(b):
+            return [pre or "/"]
+        out = []
+        for i, (x, y) in enumerate(zip(a, b)):
+            out += _missing(x, y, "%s[%d]" % (pre, i))
+        return out
+    return [] if a == b else [pre or "/"]
+
+
 def judge(cmd, vec, labels, res):
     """-> (outcome, viols)"""
     argv = build_argv(cmd, vec)
@@ -195,12 +238,20 @@ def judge(cmd, vec, labels, res):
     if st != "ok":
         viols.append(V(P + ":main:served:api-refuses", "argv %r served although the API raises %s" % (argv, exp)))
         return "violation", viols
+    full = json.loads(json.dumps(exp))
     if vec["paranoia"]:
         exp = ref_paranoia(exp)
-    exp_text = json.dumps(exp, indent=4)
-    if data != json.loads(exp_text):
-        diff = [k for k in set(data) | set(exp) if data.get(k) != exp.get(k)]
-        viols.append(V(P + ":main:served:differs-from-api", "argv %r: JSON differs from the library API result in %r" % (argv, sorted(diff))))
+    exp = json.loads(json.dumps(exp, indent=4))
+    # every field of the API result must be in the output with the same value; ADDITIONAL fields are not judged, except that a
+    # paranoia run must not carry any string of the unfiltered result that the filter removes
+    diff = _missing(data, exp)
+    if diff:
+        viols.append(V(P + ":main:served:differs-from-api", "argv %r: JSON differs from the library API result in %r" % (argv, sorted({d.split("/")[1] for d in diff if "/" in d} or diff)[:5])))
+    if vec["paranoia"]:
+        removed = set(_strings(full)) - set(_strings(exp))
+        leaked = [x for x in _strings(data) if x in removed and len(x) >= 8]
+        if leaked:
+            viols.append(V(P + ":main:served:paranoia-carries-filtered-string", "argv %r: the --paranoia output carries %r, which the filter removes from the API result" % (argv, leaked[0][:40])))
     # how the JSON is laid out (indentation, key order) is not part of the property: only the data is compared
     for n in ("BIP44", "BIP49", "BIP84"):
         for row in data[n]["groups"]:
@@ -255,6 +306,40 @@ def run(ctx):
     for cmd in ("from-entropy-hex", "from-mnemonic", "from-bip39-seed", "from-master-xprv", "new"):
         cases += ball(cmd, bound)
     cases += ball(None, 1)
+    # flag COMBINATIONS the one-deviation ball does not reach: --paranoia with every interval and every account value (incl. the
+    # empty interval), with and without -f, for two sub-commands
+    seen0 = {json.dumps([c["cmd"], c["vec"]], sort_keys=True) for c in cases}
+    for cmd in ("from-master-xprv", "from-mnemonic"):
+        dims = dims_for(cmd)
+        names = list(dims)
+        for n in ("interval", "account"):
+            for val, lab in dims[n][1:]:
+                for fval, flab in ((None, G), ("out.json", G)):
+                    vec = {m: dims[m][0][0] for m in names}
+                    labels = {m: dims[m][0][1] for m in names}
+                    vec[n], labels[n] = val, lab
+                    vec["paranoia"] = True
+                    vec["file"], labels["file"] = fval, flab
+                    vec = {k: (list(v) if isinstance(v, tuple) else v) for k, v in vec.items()}
+                    key = json.dumps([cmd, vec], sort_keys=True)
+                    if key not in seen0:
+                        seen0.add(key)
+                        cases.append({"cmd": cmd, "vec": vec, "labels": labels, "dev": 3 if fval else 2})
+    # computed-intermediate corner (vf/corners.py): accounts whose extended PRIVATE key text contains a field name of the schema
+    from .. import corners
+    kept, st = corners.cover(((a, _acct_text_feats(a)) for a in range(ctx.seed * 5000, 10**7)), {}, 200000, positions=False, firstlast=False, pairs=False,
+                             extra=[corners.contains_words(["x44", "x49", "x84"], ["pub", "prv"])])
+    ctx.extra["intermediate_corner_classes_schema_words"] = st
+    if st["covered"] != st["classes"]:
+        raise HarnessError("corner cover incomplete: %r" % (st,))
+    dims = dims_for("from-master-xprv")
+    for a, _ in kept:
+        for par in (True, False):
+            vec = {m: dims[m][0][0] for m in dims}
+            labels = {m: dims[m][0][1] for m in dims}
+            vec["account"], vec["paranoia"] = str(a), par
+            vec = {k: (list(v) if isinstance(v, tuple) else v) for k, v in vec.items()}
+            cases.append({"cmd": "from-master-xprv", "vec": vec, "labels": labels, "dev": 2})
     # every not-clearly-good secret / account / interval value combined with a NEW -f target (a refused run must leave no file)
     seen = {json.dumps([c["cmd"], c["vec"]], sort_keys=True) for c in cases}
     for cmd in ("from-entropy-hex", "from-mnemonic", "from-bip39-seed", "from-master-xprv", "new"):
